@@ -394,7 +394,7 @@ def gen_deep(rng, g):
     x, x2, sname = g.fresh("stage"), g.fresh("stage"), g.fresh("helper")
     if sname in (x, x2):
         return None
-    n = rng.choice([30, 60, 100, 106, 110, 150, 240])
+    n = rng.choice([30, 60, 100, 150, 200, 240, 260, 280, 300])
     tail = " + 1" * n
     return rng.choice([
         f"Select(ds, lambda {x}: (lambda {sname}: {sname}{tail})({x}.x))",
@@ -524,7 +524,9 @@ def generate(prop, seed, tier="quick", fault_free=False):
             "seed": seed, "sched_seed": 0,
             "config": {"naming": naming, "binder_reuse": reuse, "data": gen_data(st.get("data")),
                        # a back end may keep one transformer object and feed it query after query
-                       "reuse_instance": (not fault_free) and c.random() < 0.3},
+                       "reuse_instance": (not fault_free) and c.random() < 0.3,
+                       # Python's default recursion limit, or the roomier one of the harness
+                       "recursion_limit": 3000 if fault_free else c.choice([1000, 3000])},
             "ops": ops}
 
 
@@ -785,6 +787,9 @@ class Node:
 
 def run_epoch(case, ops, state):
     "Runs in a process forked from the pristine worker; returns the durable state."
+    import sys
+
+    sys.setrecursionlimit(case["config"].get("recursion_limit", 3000))
     n = Node(case, state)
     viol = None
     try:
